@@ -148,7 +148,10 @@ def gen_spec(rng, big=False):
         g["grid_w"] = w
     # window
     win = rng.choice([None, None, "inside", "touch", "outside"])
-    return {"kind": "colloc", "gen": g, "layout1": layout1, "layout2": layout2, "window": win}
+    # the documented constructor option: "finding collocations can be parallelized in threads"
+    thr = rng.choice([None, None, 2, 4] if not big else [None, 2, 4, 4])
+    return {"kind": "colloc", "gen": g, "layout1": layout1, "layout2": layout2, "window": win,
+            "threads": thr}
 
 
 def window_of(spec, p, s):
@@ -336,7 +339,7 @@ def run_history(rec, rng, case):
     """One Collocator object driven through a sequence of calls."""
     from typhon.collocations import Collocator
     p, s = M.gen_case(case["gen"])
-    coll = Collocator()
+    coll = Collocator(threads=case.get("threads"))
     steps = case.get("history") or rng.choice([["inplace-update"], ["grid-reuse-then-magnitude"],
                         ["single-then-stack"], ["single-then-stack", "same"],
                         ["same", "same"], ["same", "swap", "same"], ["same", "perturb", "perturb2"],
@@ -438,25 +441,25 @@ def run_history(rec, rng, case):
         rec.count("history.calls")
         check_call(rec, coll, dict(case, history=steps), pp, ss, call, tag="history")
     # every answer is also demanded from a fresh object (same oracle)
-    check_call(rec, Collocator(), case, p0, s0, make_call(rng, case, p0, s0))
+    check_call(rec, Collocator(threads=case.get("threads")), case, p0, s0, make_call(rng, case, p0, s0))
 
 
 def run_single(rec, rng, case):
     from typhon.collocations import Collocator
     p, s = M.gen_case(case["gen"])
-    coll = Collocator()
+    coll = Collocator(threads=case.get("threads"))
     base = make_call(rng, case, p, s)
     # the same case under several numpy seeds (the index shuffles its build points) and tunings
     for k in range(3):
         call = dict(base, npseed=rng.randrange(10 ** 6))
         if k:
             call.update(make_call(rng, case, p, s))
-        check_call(rec, Collocator() if k % 2 else coll, case, p, s, call)
-    check_call(rec, Collocator(), case, p, s, make_call(rng, case, p, s, swap=True))
+        check_call(rec, Collocator(threads=case.get("threads")) if k % 2 else coll, case, p, s, call)
+    check_call(rec, Collocator(threads=case.get("threads")), case, p, s, make_call(rng, case, p, s, swap=True))
     if p["time"].size * s["time"].size <= 40000:
         # spatial-only search (max_interval=None)
         rec.count("collocate.spatial_only")
-        check_call(rec, Collocator(), case, p, s, make_call(rng, case, p, s, spatial_only=True))
+        check_call(rec, Collocator(threads=case.get("threads")), case, p, s, make_call(rng, case, p, s, spatial_only=True))
 
 
 def run_shard(spec, rec):
@@ -483,7 +486,7 @@ def run_shard(spec, rec):
 def replay(case, rec):
     from typhon.collocations import Collocator
     p, s = M.gen_case(case["gen"])
-    coll = Collocator()
+    coll = Collocator(threads=case.get("threads"))
     for call in case.get("calls", []):
         pp, ss = p, s
         if call.get("stack") or "inplace" in call or "gridreuse" in call:
